@@ -456,6 +456,7 @@ outer:
 	if c.Shard == 1 {
 		eachLeg(c)
 		localLeg(c, e.fns)
+		copyLeg(c)
 	}
 	if c.Shard == 0 {
 		var m []string
@@ -486,6 +487,18 @@ func replay(c *core.Ctx, raw json.RawMessage) {
 	var ec eachCase
 	if err := json.Unmarshal(raw, &ec); err == nil && ec.Leg == "each" {
 		replayEach(c, ec)
+		return
+	}
+	var cc copyCase
+	if err := json.Unmarshal(raw, &cc); err == nil && cc.Leg == "copy" {
+		l := make([]any, len(cc.List))
+		for i, v := range cc.List {
+			if f, ok := v.(float64); ok {
+				v = int64(f)
+			}
+			l[i] = v
+		}
+		judgeCopy(c, cc.Fn, l)
 		return
 	}
 	var lc localCase
